@@ -10,7 +10,10 @@ pub mod c07;
 pub mod c08;
 pub mod c09;
 pub mod c10;
+pub mod c13;
+pub mod c14;
 pub mod c15;
+pub mod c16;
 pub mod c18;
 pub mod files;
 pub mod hist;
@@ -29,7 +32,10 @@ pub fn run(ctx: &Ctx, part: &str) -> i32 {
         "C08" => c08::run(ctx),
         "C09" => c09::run(ctx),
         "C10" => c10::run(ctx),
+        "C13" => c13::run(ctx),
+        "C14" => c14::run(ctx),
         "C15" => c15::run(ctx),
+        "C16" => c16::run(ctx),
         "C18" => c18::run(ctx),
         other => {
             println!("INCONCLUSIVE property={} unknown check", other);
